@@ -136,6 +136,18 @@ Definition encode_one (o : opts) (val : option (list N)) : list N :=
   | Some v => inv_if (descending o) (encode_nonempty v)
   end.
 
+(* bit_util::ceil = usize::div_ceil *)
+Definition ceil (value divisor : nat) : nat :=
+  (value / divisor + (if (value mod divisor =? 0)%nat then 0 else 1))%nat.
+
+(* variable::non_null_padded_length / padded_length: the row length pre-computed by row_lengths,
+   which the unchecked writes of encode_column rely on *)
+Definition non_null_padded_length (len : nat) : nat :=
+  if (len <=? BLOCK_SIZE)%nat then (1 + ceil len MINI_BLOCK_SIZE * (MINI_BLOCK_SIZE + 1))%nat
+  else (MINI_BLOCK_COUNT + ceil len BLOCK_SIZE * (BLOCK_SIZE + 1))%nat.
+Definition padded_length (a : option nat) : nat :=
+  match a with Some a => non_null_padded_length a | None => 1%nat end.
+
 (* variable::decode_blocks: returns the concatenated (still inverted when descending) data handed
    to the callback and the number of bytes consumed *)
 Definition slice (row : list N) (from len : nat) : list N := firstn len (skipn from row).
